@@ -59,6 +59,12 @@ def check_case(ctx, case):
     if d_out != shifted(d_in, k, n):
         ctx.fail("after >> {} some feature is not attached to the same nucleotides: {} vs expected {}".format(
             k, d_out, shifted(d_in, k, n)), case, key=None)
+    for label, rr in (("r >> {}".format(k), cout), ("(r >> {}) >> {}".format(k, k2), impl.canon_record((rec >> k) >> k2))):
+        bad = [(s, e) for ft in rr.feats for (s, e, _) in ft.parts if not (-n < s < n and s < e <= s + n and e > 0)]
+        if bad:
+            ctx.fail("{} yields the location [{}, {}) on a record of length {}: not a stretch Biopython can read "
+                     "(extract() gives nothing for it)".format(label, bad[0][0], bad[0][1], n), case)
+            break
     if [f.cites for f in cout.feats] != [f.cites for f in cin.feats]:
         ctx.fail("qualifiers changed by rotation", case)
     tr = out.letter_annotations.get("track")
